@@ -75,7 +75,9 @@ class BaseFiles(Generic[Interface]):
         try:
             stat_result = os.stat(path)
             return stat_result, stat.S_ISREG(stat_result.st_mode)
-        except FileNotFoundError:
+        except (OSError, ValueError):
+            # Not only a missing file: a path through a regular file (ENOTDIR), an
+            # over-long name (ENAMETOOLONG), a NUL in the path (ValueError), ...
             return None, False
 
     def if_none_match(self, etag: str, if_none_match: str) -> bool:
